@@ -479,7 +479,7 @@ func (r ref) reachedBy(name string) []string {
 func check(c Case) pbt.Verdict {
 	reset()
 	r := newRef(c.Model)
-	if msg := runRcall(r, c.Target, c.Model.ToCoca()); msg != "" {
+	if msg := runRcall(r, c.Target, toCoca(c.Model)); msg != "" {
 		return pbt.Fail("%s", msg)
 	}
 	return classify(c.Model, r, c.Target)
@@ -489,7 +489,7 @@ func check(c Case) pbt.Verdict {
 func checkLookup(c Case) pbt.Verdict {
 	reset()
 	r := newRef(c.Model)
-	if msg := runLookup(r, c.Target, c.Model.ToCoca()); msg != "" {
+	if msg := runLookup(r, c.Target, toCoca(c.Model)); msg != "" {
 		return pbt.Fail("%s", msg)
 	}
 	v := classify(c.Model, r, c.Target)
@@ -502,7 +502,7 @@ func checkSeq(c SeqCase) pbt.Verdict {
 	var data [][]core_domain.CodeDataStruct
 	var refs []ref
 	for _, m := range c.Models {
-		data = append(data, m.ToCoca())
+		data = append(data, toCoca(m))
 		refs = append(refs, newRef(m))
 	}
 	v := pbt.Verdict{}
@@ -544,7 +544,7 @@ func checkCli(c CliCase) pbt.Verdict {
 	}
 	dir := cli.Scratch("c04-")
 	defer os.RemoveAll(dir)
-	data := c.Model.ToCoca()
+	data := toCoca(c.Model)
 	if data == nil {
 		data = []core_domain.CodeDataStruct{}
 	}
@@ -611,7 +611,7 @@ func init() {
 	pbt.Register("rcall", 8000, 80000, gen, check)
 	pbt.Register("lookup", 3000, 30000, gen, checkLookup)
 	pbt.Register("seq", 3000, 30000, genSeq, checkSeq)
-	pbt.Register("cli", 60, 400, genCli, checkCli)
+	pbt.Register("cli", 100, 400, genCli, checkCli)
 }
 
 func TestProp(t *testing.T)   { pbt.Main(t) }
